@@ -8,7 +8,7 @@
    the already-attested filter (any subset of the duty in any order), every answer [avail] of the
    accounts provider in every iteration order of the Go map, every attestation data [a], every
    set [unsigned] of validators the signer returns a zero signature for. *)
-From Verif Require Import Lib.Base Model.C01_Attester Model.C04_Merge Proofs.C01 Proofs.C04 Proofs.C04_Merge.
+From Verif Require Import Lib.Base Model.C01_Attester Model.C04_Merge Proofs.C01 Proofs.C04 Proofs.C04_Merge Proofs.C04_Split.
 
 (* Every attestation produced is for a validator v that passed the filter, has an account and a
    non-zero signature, and carries: committee index c, bitlist of length size(c) with exactly bit p
@@ -237,6 +237,45 @@ Proof.
   - intros r [<-|[<-|[]]]; reflexivity.
   - intros r r' [<-|[<-|[]]] [<-|[<-|[]]]; cbn; intros; try reflexivity; discriminate.
 Qed.
+
+(* Signatures obtained in several requests.  The pinned tree asks its signer once per call; a service
+   configured with a process concurrency above 1 (as main.go configures it) could as well split its
+   accounts into ranges and have them signed side by side.  Whatever the ranges, joining the answers
+   in the order of the ranges gives the attestations of the single request, so every theorem above
+   applies to it ... *)
+Theorem C04_split_signing :
+  forall (d : duty) (a : adata) (unsigned : list vidx) (rs : list (list sarg)),
+    create_atts d a (concat rs) (sign_ranges (d_slot d) a unsigned rs) = attestations d a (concat rs) unsigned.
+Proof. exact split_signing. Qed.
+Print Assumptions C04_split_signing.
+
+(* ... and the order is all there is: the signature standing at position k of the list handed to
+   createAttestations is put onto the attestation with the k-th account's committee index, position
+   bit and committee size, whatever it signs and whoever signed it.  (Joining the answers in the order
+   in which the requests return -- seeded change C04-9 -- puts another validator's signature there:
+   [C04_split_signing_example].) *)
+Theorem C04_signature_goes_by_position :
+  forall (d : duty) (a : adata) (args : list sarg) (sigs : list (option sigval)) (k : nat) (x : sarg) (s : sigval),
+    nth_error args k = Some x -> nth_error sigs k = Some (Some s) -> (sa_size x <=? max_committee) = true ->
+    In {| at_len := sa_size x; at_bits := if sa_pos x <? sa_size x then [sa_pos x] else [];
+          at_vote := mkvote (d_slot d) (sa_comm x) a; at_sig := s |} (create_atts d a args sigs).
+Proof. exact create_atts_position. Qed.
+Print Assumptions C04_signature_goes_by_position.
+
+(* validators 1 and 2 in committees 3 and 5 at positions 2 and 4, each signed in a request of its own:
+   joined in the order of the ranges each attestation has its own validator's signature over its own
+   committee; joined the other way round (the second request returned first) the attestation for
+   committee 3, bit 2 carries validator 2's signature over committee 5 *)
+Example C04_split_signing_example :
+  let d := {| d_slot := 100; d_vals := [1; 2]; d_comms := [3; 5]; d_poss := [2; 4]; d_sizes := [(3, 8); (5, 9)] |} in
+  let a := {| a_slot := 100; a_root := 11; a_src := 2; a_src_root := 12; a_tgt := 3; a_tgt_root := 13 |} in
+  let args := sign_args d [1; 2] [1; 2] in
+  let r1 := firstn 1 args in
+  let r2 := skipn 1 args in
+  let shape := map (fun x => (fst (at_sig x), vt_comm (snd (at_sig x)), vt_comm (at_vote x), at_len x, at_bits x)) in
+  shape (create_atts d a (r1 ++ r2) (sign_ranges 100 a [] [r1; r2])) = [(1, 3, 3, 8, [2]); (2, 5, 5, 9, [4])] /\
+  shape (create_atts d a (r1 ++ r2) (sign_ranges 100 a [] [r2; r1])) = [(2, 5, 3, 8, [2]); (1, 3, 5, 9, [4])].
+Proof. vm_compute. split; reflexivity. Qed.
 
 (* Non-vacuity of "any interleaving" in [C04_submitted_assignment]: two calls of Attest for two slots
    overlap on the one service (corpus/C04/overlapping-slots-slow-signer.json).  Call 0 (slot 100,
